@@ -215,6 +215,9 @@ def leaf_by_name(leaves, name):
     return None
 
 
+FLOATBAD = ["not a number"]      # rotated by the caller: wrong type, then finite values beyond the format's range
+
+
 def bad_value_for(leaf):
     k = leaf[0]
     if k == "name":
@@ -222,7 +225,7 @@ def bad_value_for(leaf):
         if n == "Flag":
             return None           # anything builds as a Flag
         if n.startswith("Float"):
-            return "not a number"
+            return FLOATBAD[0]
         return 1 << 80 if n != "VarInt" else -5
     if k in ("Bytes",):
         return b"toolongvalue"
@@ -313,6 +316,14 @@ def run_shape(ctx, rng, r):
         active = [ev for ev in events if ev[7] is not None and ev[7] <= idx and (ev[8] is None or ev[8] > idx)]
         want = dedupe_members(active)
         case = {"op": "parse", "recipe": r, "encoding": tag(enc), "cut": t}
+        # the member whose byte extent contains the cut, from the positions the members started and ended at (independent of
+        # which call happened to read the byte): it must lie on the same chain as the member that performed the read (a region
+        # read up-front is read by an enclosing member, never by an unrelated one)
+        inext = [ev for ev in events if ev[0] == "parse" and ev[6] == id(s) and ev[3] is not None and ev[4] is not None and ev[3] <= t < ev[4]]
+        want_ext = dedupe_members(inext)
+        if want_ext[:len(want)] != want and want[:len(want_ext)] != want_ext:
+            ctx.violation("parse-extent-vs-read-attribution", "cut at %d: the members whose extent contains the offset are %s, but the read that reaches it is performed inside %s" % (t, " -> ".join(want_ext), " -> ".join(want)), case)
+            break
         try:
             d.parse(enc[:t])
             ctx.count("truncation_accepted")        # C06's subject
@@ -354,6 +365,7 @@ def run_shape(ctx, rng, r):
         except Exception:
             continue
     # ---- building: every named leaf made unbuildable in turn
+    FLOATBAD[0] = ["not a number", 1e300, -3.5e38, 70000.0][ctx.evaluations % 4]
     for chain, leaf, bad in [(c, l, bad_value_for(l)) for c, l in leaves] + [(c, l, "\u20ac not ascii") for c, l in leaves if l[0] in ("CString", "PaddedString") and l[-1] == "ascii"]:
         if bad is None:
             continue
@@ -369,8 +381,9 @@ def run_shape(ctx, rng, r):
             continue
         except C.ConstructError as e:
             check_path(ctx, e, "(building)", chain, "build", case, "member %s made unbuildable (%r)" % (".".join(chain), bad))
-        except Exception:
-            ctx.count("build_foreign_exception")
+        except Exception as e:
+            # no ConstructError at all, so no path: the failing member is not named
+            ctx.violation("build-error-not-a-ConstructError:%s" % type(e).__name__, "member %s made unbuildable (%r): build raised %s: %s" % (".".join(chain), bad, type(e).__name__, str(e)[:120]), case)
             continue
         ctx.count("build_failures")
         if len(chain) >= 2:
